@@ -68,6 +68,10 @@ func (s *State) heap(name string, srt *Sort) *Term {
 		panic(fmt.Sprintf("heap family %s used at sorts %s and %s", name, o, srt))
 	}
 	heapSorts[name] = srt
+	if strings.HasPrefix(name, "G|ghost") {
+		// ghost state does not depend on the havoc epoch
+		return Var("ghost0|"+name, srt)
+	}
 	if finalProg != nil && finalProg.finalFamily(name) {
 		// final fields: the contents for objects that exist do not depend on what was executed
 		registerFinalHeapFact(name, srt)
@@ -257,7 +261,9 @@ func (s *State) wf(v Value) *Term {
 		case SlV:
 			z := BVi(0, 64)
 			cs = append(cs, SLe(z, x.Len), SLe(x.Len, x.Cap), SLe(x.Cap, maxLen), SLe(z, x.Off), SLe(x.Off, maxLen),
-				Or(ULt(x.Arr, s.Alloc), ULe(BVu(0x80000000, 32), x.Arr)), Implies(Eq(x.Arr, BVi(0, 32)), And(Eq(x.Cap, z), Eq(x.Off, z))))
+				// the backing array is an allocated array, or the array-typed field of an allocated object
+				Or(ULt(x.Arr, s.Alloc), And(ULe(BVu(0x80000000, 32), x.Arr), ULt(BAnd(x.Arr, BVu(0x00ffffff, 32)), s.Alloc))),
+				Implies(Eq(x.Arr, BVi(0, 32)), And(Eq(x.Cap, z), Eq(x.Off, z))))
 		case PtrV:
 			if x.L.Kind == LHeap && len(x.L.Path) == 0 {
 				cs = append(cs, ULt(x.L.Ref, s.Alloc))
